@@ -281,22 +281,95 @@ Not decided: the folding of FROM set expressions (unions/intersections) and seri
         }
     }
 
+
+    // ---- the subset list only grows ----
+    // `charset_subsets` is the denotation of the alphabet: from construction to rendering it may be appended to and
+    // reordered, never shrunk (a union of FROM operands is the concatenation of their subsets).
+    {
+        let growing = ["push", "extend", "append", "extend_from_slice", "sort", "sort_by", "sort_by_key", "sort_unstable", "sort_unstable_by", "sort_unstable_by_key", "dedup"];
+        let readonly = ["iter", "len", "is_empty", "clone", "first", "last", "contains", "as_slice", "get", "to_vec", "as_ref"];
+        let mut sites = 0;
+        for f in m.fns.iter().filter(|f| f.krate == "rasn-compiler" && !f.module.contains("tests")) {
+            for mc in model::method_calls_in(&f.block) {
+                let r = tok(&mc.receiver);
+                if !(r.ends_with(".charset_subsets") || r.ends_with(".charset_subsets()")) {
+                    continue;
+                }
+                sites += 1;
+                let name = mc.method.to_string();
+                ctx.oblige("C15.sets", &format!("subset-list:{}:{}", f.name, name), true);
+                if !growing.contains(&name.as_str()) && !readonly.contains(&name.as_str()) {
+                    ctx.violate("C15.sets", &format!("subset-list-shrinks:{}:{}", f.name, name), &f.file, span_line(&mc),
+                        &format!("`{}.{}(..)` in `{}`: the list of permitted-alphabet subsets may only be appended to or sorted between parsing and rendering; an operation that can remove entries (here `{}`) makes the annotation denote fewer characters than the FROM constraint allows", r, name, f.name, name));
+                }
+            }
+        }
+        ctx.floor("C15.sets/subset-list-sites", sites, 3);
+    }
+
     // ---- rendering ----
     if let Some(f) = anchor_fn(m, ctx, "C15.render", Some("Rasn"), "format_alphabet_annotations", None) {
         let b = tok(&f.block);
-        ctx.oblige("C15.render", "singleton", true);
-        if !b.contains(&model::norm_tokens("CharsetSubset::Single(c) => format!(\"\\\"{}\\\"\", c.escape_unicode())")) {
-            ctx.violate("C15.render", "singleton", &f.file, f.line, "a singleton must be rendered as the quoted unicode escape of the character");
+        // the rendering closure (the one that matches on CharsetSubset) is evaluated on each subset shape
+        struct C {
+            out: Vec<syn::ExprClosure>,
         }
-        ctx.oblige("C15.render", "inclusive-range", true);
-        if !b.contains(&model::norm_tokens("\"\\\"{}..={}\\\"\"")) {
-            ctx.violate("C15.render", "inclusive-range", &f.file, f.line, "a range must be rendered `from..=to` (X.680 §47.4.1: both end points included)");
+        impl model::DeepCb for C {
+            fn expr(&mut self, e: &syn::Expr) {
+                if let syn::Expr::Closure(c) = e {
+                    if tok(&c.body).contains("CharsetSubset::Single") {
+                        self.out.push(c.clone());
+                    }
+                }
+            }
         }
-        ctx.oblige("C15.render", "from-then-to", true);
-        let pf = b.find("from.map_or(");
-        let pt = b.find("to.map_or(");
-        if !matches!((pf, pt), (Some(a), Some(c)) if a < c) {
-            ctx.violate("C15.render", "from-then-to", &f.file, f.line, "the range must render the lower end point first");
+        let mut c = C { out: vec![] };
+        model::deep_walk_block(&f.block, &mut c);
+        if c.out.len() != 1 {
+            ctx.fail_closed("C15.render", "format_alphabet_annotations: rendering closure over CharsetSubset not found");
+        } else {
+            let consts = const_resolver(m);
+            let hook = |_: &Evaluator, name: &str, args: &[Val]| -> Option<Result<Val, String>> {
+                match (name, args.first()) {
+                    (".escape_unicode", Some(Val::Char(ch))) => Some(Ok(Val::Str(ch.escape_unicode().to_string()))),
+                    _ => None,
+                }
+            };
+            let ev = Evaluator { consts: &consts, call_hook: &hook, inline: None };
+            let clo = syn::Expr::Closure(c.out[0].clone());
+            let range = |a: Option<char>, b: Option<char>| {
+                let mut f = BTreeMap::new();
+                f.insert("from".to_string(), a.map(|x| Val::some(Val::Char(x))).unwrap_or(Val::none()));
+                f.insert("to".to_string(), b.map(|x| Val::some(Val::Char(x))).unwrap_or(Val::none()));
+                Val::Ctor("Range".into(), vec![], f)
+            };
+            let cases: Vec<(&str, Val, &str)> = vec![
+                ("singleton", Val::Ctor("Single".into(), vec![Val::Char('a')], BTreeMap::new()), "\"\\u{61}\""),
+                ("singleton", Val::Ctor("Single".into(), vec![Val::Char('\u{10ffff}')], BTreeMap::new()), "\"\\u{10ffff}\""),
+                ("inclusive-range", range(Some('a'), Some('f')), "\"\\u{61}..=\\u{66}\""),
+                ("inclusive-range", range(Some('0'), Some('0')), "\"\\u{30}..=\\u{30}\""),
+                ("from-then-to", range(Some('z'), Some('a')), "\"\\u{7a}..=\\u{61}\""),
+            ];
+            for (key, v, want) in cases {
+                ctx.oblige("C15.render", &format!("{}:{}", key, v.show()), true);
+                match ev.apply_closure(&clo, &[v.clone()], &Env::new()) {
+                    Ok(Val::Str(sv)) => {
+                        if sv != want {
+                            ctx.violate("C15.render", key, &f.file, span_line(&c.out[0]), &format!("subset {} is rendered `{}`; the annotation syntax is `{}` (quoted unicode escapes, `from..=to` with both end points included, lower end first)", v.show(), sv, want));
+                        }
+                    }
+                    Ok(o) => ctx.fail_closed("C15.render", &format!("[{}]: {}", key, o.show())),
+                    Err(e) => ctx.fail_closed("C15.render", &format!("[{}]: {}", key, e)),
+                }
+            }
+        }
+        // between the subset list and the rendered text nothing may drop or reorder a subset
+        ctx.oblige("C15.render", "every-subset-rendered", true);
+        for mc in model::method_calls_in(&f.block) {
+            let name = mc.method.to_string();
+            if ["filter", "filter_map", "skip", "take", "step_by", "skip_while", "take_while", "dedup", "dedup_by", "dedup_by_key", "rev", "nth", "last", "find", "find_map"].contains(&name.as_str()) && tok(&mc.receiver).contains("charset_subsets()") {
+                ctx.violate("C15.render", &format!("every-subset-rendered:{}", name), &f.file, span_line(&mc), &format!("`{}` is applied to the subset list on its way into the annotation: every subset must be rendered", name));
+            }
         }
         ctx.oblige("C15.render", "finalize-before-render", true);
         let pfin = b.find("permitted_alphabet.finalize()");
